@@ -181,6 +181,9 @@ fn run_workload(prelude: &[Op], workload: &[Op], start_idx: Idx, backend: Backen
                 let frec = crash::record_with_prelude(prelude, workload, start_idx, backend, Some(i)).await;
                 crash::FAULT_ANSWER.with(|a| a.set(vcore::ctlstore::Answer::ErrAfter));
                 t.fault_runs += 1;
+                for (sig, msg) in &frec.live_problems {
+                    t.problems.push((sig.clone(), msg.clone(), json!({"workload": workload, "prelude": prelude, "start_idx": start_idx, "backend": backend, "ambiguous_failure_at_mutation": i, "fault_answer": format!("{answer:?}")})));
+                }
                 let exp = crash::expectation_after_fault(&frec, frec.prelude_attempts + i);
                 let ctx = json!({"workload": workload, "prelude": prelude, "start_idx": start_idx, "fault_answer": format!("{answer:?}"), "backend": backend, "ambiguous_failure_at_mutation": i,
                                  "outcomes": frec.ops.iter().map(|r| r.out.short()).collect::<Vec<_>>()});
